@@ -81,7 +81,12 @@ func BackOffDelayPolicy(attempts uint, _ error, retryConfig *Config) time.Durati
 		attempts = max
 	}
 
-	return retryConfig.Delay << attempts
+	d := retryConfig.Delay << attempts
+	if d>>attempts != retryConfig.Delay || d < 0 {
+		// the shift left the range of int64: saturate (Delay applies MaxDelay to the result)
+		return time.Duration(math.MaxInt64)
+	}
+	return d
 }
 
 // CombineDelay return DelayPolicyFunc, which combines the optional DelayPolicyFunc into a new DelayPolicyFunc
